@@ -308,7 +308,9 @@ void Socket::setStatusCode(int statusCode, const QByteArray &statusReason)
 void Socket::setHeader(const QByteArray &name, const QByteArray &value, bool replace)
 {
     if (replace || !d->responseHeaders.count(name)) {
-        d->responseHeaders.replace(name, value);
+        // A header set through setHeaders() may have several values
+        d->responseHeaders.remove(name);
+        d->responseHeaders.insert(name, value);
     } else {
         d->responseHeaders.replace(name, d->responseHeaders.value(name) + ", " + value);
     }
